@@ -4,8 +4,7 @@
       thread's own message;
     - thread sets of deliveries, appends and CREATE only ([simple]): that link
       is the ONLY link carrying the message (exactly once);
-    plus the refuting witnesses for (e) and the sequential refinement of a
-    thread run on its own. *)
+    plus the regression instances of the two repaired races. *)
 From Coq Require Import String Ascii List Bool ZArith Lia Arith.
 From Raven Require Import Base.GoStr Model.Store Model.Ops Model.Conc Proof.StoreInv
   Proof.ConcStore Proof.ConcInv.
@@ -156,31 +155,31 @@ Qed.
 Definition res_ok (r : result) : bool :=
   match r with ROk | RAppendUid _ _ => true | _ => false end.
 
-(** ---- refutations of (e): a delivery that succeeds on its own is bounced ---------------------- *)
+(** ---- the schedules that used to bounce a delivery (classes uidnext_race and
+    create_race, repaired by fixes/c08-atomic-uidnext.patch and
+    fixes/c08-deliver-folder-race.patch) --------------------------------------------- *)
 
 Definition failed_at (c : config) (i : nat) : bool :=
   match nth_error (c_threads c) i with Some th => is_failst th | None => false end.
 
-(** two deliveries to INBOX of a new account; A.read B.read B.update B.insert
-    A.update A.insert  =>  A's INSERT hits UNIQUE(mailbox_id, uid): 550 *)
+(** two deliveries to INBOX, allocation steps back to back, inserts in the
+    opposite order: both are stored, UIDs 1 and 2, uid_next 3 *)
 Definition w_ps : list prog := [PDeliver INBOX 0; PDeliver INBOX 0].
-Definition w_sch : list tid := [0; 0; 1; 1; 0; 1; 1; 1; 0; 0]%nat.
+Definition w_sch : list tid := [0; 0; 1; 1; 0; 1; 1; 0]%nat.
 
-Lemma c08_refuted_lost_delivery_l :
-  classify (init 0) w_ps w_sch = Some UidNextRace /\
-  is_okst (snd (solo (init 0) (PDeliver INBOX 0))) = true /\
-  failed_at (run_sched w_sch (init_cfg (init 0) w_ps)) 0 = true /\
-  (** the counter moved twice, one message is stored *)
-  mbox_view (run_sched w_sch (init_cfg (init 0) w_ps)) INBOX = (3, [(1, 1)]).
+Lemma c08_regression_lost_delivery_l :
+  failed_at (run_sched w_sch (init_cfg (init 0) w_ps)) 0 = false /\
+  failed_at (run_sched w_sch (init_cfg (init 0) w_ps)) 1 = false /\
+  mbox_view (run_sched w_sch (init_cfg (init 0) w_ps)) INBOX = (3, [(1, 0); (2, 1)]).
 Proof. vm_compute. repeat split. Qed.
 
-(** two first deliveries to a folder that does not exist yet: both see it
-    missing, the second CREATE hits UNIQUE(user_id, name): 550 *)
+(** two first deliveries to a missing folder, both see it missing: the loser
+    of the CREATE looks it up again and delivers *)
 Definition w2_ps : list prog := [PDeliver (S_ "D") 7; PDeliver (S_ "D") 8].
-Definition w2_sch : list tid := [0; 1; 0; 1; 0; 0; 0; 0; 1; 1; 1; 1]%nat.
+Definition w2_sch : list tid := [0; 1; 0; 1; 0; 0; 0; 1; 1; 1; 1; 1]%nat.
 
-Lemma c08_refuted_create_race_l :
-  classify (init 0) w2_ps w2_sch = Some CreateRace /\
-  is_okst (snd (solo (init 0) (PDeliver (S_ "D") 8))) = true /\
-  failed_at (run_sched w2_sch (init_cfg (init 0) w2_ps)) 1 = true.
+Lemma c08_regression_create_race_l :
+  failed_at (run_sched w2_sch (init_cfg (init 0) w2_ps)) 0 = false /\
+  failed_at (run_sched w2_sch (init_cfg (init 0) w2_ps)) 1 = false /\
+  mbox_view (run_sched w2_sch (init_cfg (init 0) w2_ps)) (S_ "D") = (3, [(1, 0); (2, 1)]).
 Proof. vm_compute. repeat split. Qed.
